@@ -221,6 +221,45 @@ def judge(m, prof, enc=(True, False)):
     return ded, feats
 
 
+def judge_big_tally(cards, V, W, share):
+    """margins from tallies of a large, close contest (the tally is given, no cards are built): the sign and value of the
+    margin are those of 2*mean-1 computed from the same counts"""
+    out = []
+    fs = SHARE_EXACT[share]
+    con = contest(3, (0,), Contest.SOCIAL_CHOICE_FUNCTION.SUPERMAJORITY, share=share, cards=cards)
+    con.tally = {"A": W, "B": V - W, "C": 0}
+    a = next(iter(Assertion.make_supermajority_assertion(con, share_to_win=share, winner="A", loser=["B", "C"], test=NonnegMean.alpha_mart).values()))
+    try:
+        a.find_margin_from_tally()
+    except Exception as e:  # noqa
+        return [(f"C02|tally-margin|exception|{type(e).__name__}", f"{type(e).__name__}: {e}")]
+    want = (F(W) / fs - V) / cards
+    def off(got, w):  # exact tie: within rounding of 0; otherwise the right sign and the right value
+        if w == 0:
+            return abs(got) > 1e-12
+        return (w > 0) != (got > 0) or abs(got - float(w)) > 1e-9 * abs(float(w))
+
+    if off(a.margin, want):
+        out.append(("C02|tally-margin|supermajority", f"cards {cards}, valid {V}, winner {W}, share {share}: margin from tally {a.margin!r}, 2*mean-1 = {float(want)!r}"))
+    conp = contest(3, (0,), Contest.SOCIAL_CHOICE_FUNCTION.PLURALITY, cards=cards)
+    conp.tally = {"A": W, "B": V - W, "C": 0}
+    ap = Assertion.make_plurality_assertions(conp, winner=["A"], loser=["B", "C"], test=NonnegMean.alpha_mart)["A v B"]
+    ap.find_margin_from_tally()
+    wantp = F(W - (V - W), cards)
+    if off(ap.margin, wantp):
+        out.append(("C02|tally-margin|plurality", f"cards {cards}, A {W}, B {V - W}: margin from tally {ap.margin!r}, (A-B)/cards = {float(wantp)!r}"))
+    return out
+
+
+def big_tally_cases():
+    for cards, V in ((200000, 180000), (10 ** 6, 10 ** 6), (3 * 10 ** 6, 2400000)):
+        for share in (1 / 2, 3 / 4):
+            thr = int(SHARE_EXACT[share] * V)
+            for W in (thr - 2, thr - 1, thr, thr + 1, thr + 2, thr + 20, V // 2 - 1, V // 2, V // 2 + 1):
+                if 0 <= W <= V:
+                    yield cards, V, W, share
+
+
 def tally_pool(marks, pool, c):
     return sum(marks[i][c] for i in pool)
 
@@ -239,6 +278,15 @@ def show(m, prof):
 
 
 def run_shard(sh, rec):
+    if sh[0] == "bigtally":
+        for cards, V, W, share in big_tally_cases():
+            rec.state()
+            rec.trans()
+            rec.evals(2)
+            rec.vac("large_close_tallies")
+            for key, what in judge_big_tally(cards, V, W, share):
+                rec.violate(key, what, {"bigtally": [cards, V, W, share]})
+        return
     if sh[0] == "enc":
         _, m, B, first = sh
         for prof in profiles(m, B, first):
@@ -298,7 +346,7 @@ PLAN_ACTIVE = PLAN["quick"]
 def explore(tier, seed):
     global PLAN_ACTIVE
     PLAN_ACTIVE = PLAN[tier]
-    sh = []
+    sh = [("bigtally",)]
     for m, maxB in PLAN[tier]:
         for B in range(1, maxB + 1):
             for first in range(len(alphabet(m))):
@@ -313,6 +361,8 @@ def explore(tier, seed):
 
 
 def run_case(case):
+    if "bigtally" in case:
+        return judge_big_tally(*case["bigtally"])
     enc = tuple(case.get("enc", [True, False]))
     v, _ = judge(case["m"], tuple(case["profile"]), enc)
     if enc != (True, False):
